@@ -14,6 +14,7 @@ structure Same (s s' : St) : Prop where
   minP : s'.minP = s.minP
   maxP : s'.maxP = s.maxP
   isOpen : s'.isOpen = s.isOpen
+  wlog : s'.wlog = s.wlog
 
 /-- `s'` differs from `s` only in that more device bytes moved to the end of the buffer:
 nothing was handed out, discarded or lost -/
@@ -22,9 +23,9 @@ structure Ext (s s' : St) : Prop where
   log : s'.log = s.log
   more : ∃ extra, s'.buf = s.buf ++ extra ∧ extra ++ devBytes s'.dev = devBytes s.dev
 
-theorem Same.refl (s : St) : Same s s := ⟨rfl, rfl, rfl, rfl⟩
+theorem Same.refl (s : St) : Same s s := ⟨rfl, rfl, rfl, rfl, rfl⟩
 theorem Same.trans {a b c : St} (h1 : Same a b) (h2 : Same b c) : Same a c :=
-  ⟨h2.kind.trans h1.kind, h2.minP.trans h1.minP, h2.maxP.trans h1.maxP, h2.isOpen.trans h1.isOpen⟩
+  ⟨h2.kind.trans h1.kind, h2.minP.trans h1.minP, h2.maxP.trans h1.maxP, h2.isOpen.trans h1.isOpen, h2.wlog.trans h1.wlog⟩
 
 theorem Ext.refl (s : St) : Ext s s := ⟨Same.refl s, rfl, [], (List.append_nil _).symm, rfl⟩
 
@@ -149,10 +150,10 @@ theorem popDev_exhausted (dg : Bool) (size : Nat) (d : Script)
 theorem sockRecv_spec (s : St) (size : Nat) (v : Bool) :
     Same s (sockRecv s size v).1 ∧ (sockRecv s size v).1.log = s.log ∧ (sockRecv s size v).1.buf = s.buf ∧
     rxBytes (sockRecv s size v).2 ++ devBytes (sockRecv s size v).1.dev = devBytes s.dev :=
-  ⟨⟨rfl, rfl, rfl, rfl⟩, rfl, rfl, popDev_bytes _ _ _⟩
+  ⟨⟨rfl, rfl, rfl, rfl, rfl⟩, rfl, rfl, popDev_bytes _ _ _⟩
 
 theorem setTimeout_ext (s : St) (v : Option Int) : Ext s (setTimeout s v).1 :=
-  ⟨⟨rfl, rfl, rfl, rfl⟩, rfl, [], by simp [setTimeout], by simp [setTimeout]⟩
+  ⟨⟨rfl, rfl, rfl, rfl, rfl⟩, rfl, [], by simp [setTimeout], by simp [setTimeout]⟩
 
 theorem setTimeout_dev (s : St) (v : Option Int) : (setTimeout s v).1.dev = s.dev := rfl
 theorem setTimeout_buf (s : St) (v : Option Int) : (setTimeout s v).1.buf = s.buf := rfl
@@ -184,7 +185,7 @@ theorem readFromSocket_spec (s : St) (size : Nat) :
   | eof => exact ⟨h1, h3, h2, by simpa [rxBytes] using h4⟩
   | exhausted => exact ⟨h1, h3, h2, by simpa [rxBytes] using h4⟩
   | oserr l =>
-    refine ⟨⟨h1.kind, h1.minP, h1.maxP, h1.isOpen⟩, h3, l, ?_, ?_⟩
+    refine ⟨⟨h1.kind, h1.minP, h1.maxP, h1.isOpen, h1.wlog⟩, h3, l, ?_, ?_⟩
     · have h2' : s1.log = s.log := h2
       show s1.log ++ [(Tag.lost, l)] = s.log ++ [(Tag.lost, l)]
       rw [h2']
